@@ -73,6 +73,7 @@ class FunctionResult:
             ],
             "samples": self.samples,
             "replay_meta": self.replay_meta,
+            "reach_inputs": getattr(self, "reach_inputs", None),
         }
 
 
@@ -89,9 +90,45 @@ def model_to_dict(m, limit=80):
     return out
 
 
-def verify_function(program, registry, spec, opts=None) -> FunctionResult:
+def merge_results(parts):
+    """Merge the results of sub-trees of one function (explored by different processes)."""
+    res = parts[0]
+    for p in parts[1:]:
+        for name, rec in p.obligations.items():
+            cur = res.obligations.get(name)
+            if cur is None:
+                res.obligations[name] = rec
+                continue
+            order = {"discharged": 0, "undischarged": 1, "refuted": 2}
+            cur["instances"] += rec["instances"]
+            cur["ms"] += rec["ms"]
+            if order[rec["status"]] > order[cur["status"]]:
+                for k in ("status", "detail", "model", "inputs", "path"):
+                    cur[k] = rec.get(k)
+            if "formula" in rec and "formula" not in cur:
+                cur["formula"] = rec["formula"]
+        res.paths += p.paths
+        res.covers |= p.covers
+        res.expected_covers |= p.expected_covers
+        res.inlined |= p.inlined
+        res.contract_calls |= p.contract_calls
+        res.extern_calls |= p.extern_calls
+        res.solver_s += p.solver_s
+        res.queries += p.queries
+        res.wall_s = max(res.wall_s, p.wall_s)
+        res.out_of_reach = res.out_of_reach or p.out_of_reach
+        res.error = res.error or p.error
+        res.replay_meta = res.replay_meta or p.replay_meta
+    return res
+
+
+def verify_function(program, registry, spec, opts=None, work=None, expand_to=None) -> FunctionResult:
+    """Explore the paths below the decision prefixes in `work` (default: the whole function). With expand_to=N the
+    exploration is breadth-first and stops once N prefixes are pending; they are returned in result.pending so that
+    the sub-trees can be explored by other processes."""
     opts = opts or {}
     res = FunctionResult(spec.label)
+    res.pending = []
     fi = program.find_func(spec.target)
     t0 = time.time()
     q0, s0 = STATS.queries, STATS.solver_s
@@ -100,10 +137,13 @@ def verify_function(program, registry, spec, opts=None) -> FunctionResult:
         return res
     res.file_sha = program.file_sha.get(fi.module)
     res.ast_hash = fi.ast_hash()
-    work = [[]]
+    work = [[]] if work is None else list(work)
     seen = 0
     while work:
-        decisions = work.pop()
+        if expand_to is not None and len(work) >= expand_to:
+            res.pending = work
+            break
+        decisions = work.pop(0) if expand_to is not None else work.pop()
         seen += 1
         if seen > opts.get("max_paths", MAX_PATHS):
             res.out_of_reach = f"more than {MAX_PATHS} paths"
@@ -116,12 +156,19 @@ def verify_function(program, registry, spec, opts=None) -> FunctionResult:
             keep_formulas=opts.get("keep_formulas", False),
         )
         I = Interp(program, registry, ctx, top=fi)
+        I.top_label = spec.label
         try:
             run_path(I, ctx, spec, fi, res)
         except PathEnd:
             pass
         except OutOfReach as e:
             res.out_of_reach = str(e)
+            try:  # inputs that drive the real code to the point the verifier could not follow
+                r_, m_ = ctx.solver.model()
+                if m_ is not None and ctx.concretizer is not None:
+                    res.reach_inputs = ctx.concretizer(m_)
+            except Exception:
+                pass
         except EngineError as e:
             res.error = "engine: " + str(e) + "\n" + traceback.format_exc()[-1500:]
         except RecursionError:
@@ -150,7 +197,15 @@ def run_path(I: Interp, ctx: PathCtx, spec, fi, res: FunctionResult):
     base = spec.label
     from .replay_driver import concretize_call
 
-    ctx.concretizer = lambda m: concretize_call(I, c, m)
+    from .replay_driver import concretize as _conc
+
+    def _concretizer(m):
+        out = concretize_call(I, c, m)
+        if c._has_returns:
+            out["expected"] = _conc(I, c._returns, m)
+        return out
+
+    ctx.concretizer = _concretizer
     meta = dict(c._replay_meta)
     if c._raises_only is not None and "allowed" not in meta:
         meta["allowed"] = sorted(c._raises_only)
